@@ -135,6 +135,12 @@ func Residue(w *World, sc *Scenario, base *Baseline) []string {
 				}
 			}
 		}
+		if sc.Kind == "DaemonSet" {
+			ds := &kruiseappsv1alpha1.DaemonSet{}
+			if w.Get(ds, ns, AppName) && (dsPartition(ds) != 0 || dsPaused(ds)) {
+				out = append(out, fmt.Sprintf("workload partition is still %d (paused=%v)", dsPartition(ds), dsPaused(ds)))
+			}
+		}
 		if sc.Kind == "StatefulSet" {
 			st := &apps.StatefulSet{}
 			if w.Get(st, ns, AppName) && stsPartition(st) != 0 {
@@ -196,6 +202,9 @@ func workloadSpecProjection(obj interface{}) string {
 		if ru, ok := us["rollingUpdate"].(map[string]interface{}); ok {
 			if zero(ru["partition"]) {
 				delete(ru, "partition")
+			}
+			if p, ok := ru["paused"].(bool); ok && !p {
+				delete(ru, "paused")
 			}
 			if len(ru) == 0 {
 				delete(us, "rollingUpdate")
